@@ -208,6 +208,12 @@ func isResource(t types.Type) bool {
 
 // wptBegin: called when the translation of d starts (after the state of main.go is reset)
 func (x *tr) wptBegin(target string, d *ast.FuncDecl) {
+	if wpOwner == "u" {
+		// a target of wp_u.go: the rules of this file stay out of it (both files render index
+		// reads that may panic, each in its own way)
+		wpt = &wptFn{}
+		return
+	}
 	wpt = &wptFn{d: d, target: target, sites: map[ast.Node]string{}, hoisted: map[ast.Node]string{}, direct: map[ast.Node]bool{},
 		siteNo: map[ast.Node]int{}, rebound: map[types.Object]bool{}}
 	commaOk := map[ast.Node]bool{}
@@ -1127,4 +1133,20 @@ func wptInFuncLit(d *ast.FuncDecl, n ast.Node) bool {
 		return !found
 	})
 	return found
+}
+
+// wpOwner: which work package's rules apply to the function being translated ("t": the targets of
+// this file, "u": those of wp_u.go, "": the rules of main.go and wp_s.go only). Set by functionOnce.
+var wpOwner string
+
+var wptTargets = map[string]bool{"checkBytes": true, "checkSlice": true, "checkVal": true, "sortedResources.Less": true}
+
+func ownerOf(target string) string {
+	switch {
+	case wptTargets[target]:
+		return "t"
+	case wpuTargets[target]:
+		return "u"
+	}
+	return ""
 }
